@@ -1,0 +1,12 @@
+package xsdtype
+
+import (
+	"regexp"
+)
+
+// lexical spaces which strconv.ParseFloat does not check (it also reads hexadecimal floats, underscores, any
+// spelling of infinity)
+var (
+	decimalLexicalRE = regexp.MustCompile(`^[+-]?([0-9]+(\.[0-9]*)?|\.[0-9]+)$`)
+	floatLexicalRE   = regexp.MustCompile(`^([+-]?([0-9]+(\.[0-9]*)?|\.[0-9]+)([eE][+-]?[0-9]+)?|[+-]?INF|NaN)$`)
+)
